@@ -70,6 +70,27 @@ func Cases() []bk.Case {
 			api.AssertIsEqual(api.Add(s[0], s[1]), p[1])
 			return nil
 		}, Valid: [][2][]*big.Int{{bk.Big(6, 5), bk.Big(2, 3)}, {bk.Big(20, 9), bk.Big(4, 5)}}, Invalid: [][2][]*big.Int{{bk.Big(6, 6), bk.Big(2, 3)}}},
+		{Name: "commit-three", NP: 2, NS: 3, NbCommit: 3, Def: func(api frontend.API, p, s []frontend.Variable) error {
+			// two independent commitments, a third one depending on the SECOND only
+			c0 := commit(api, s[0])
+			c1 := commit(api, s[1])
+			c2 := commit(api, c1, s[2])
+			api.AssertIsDifferent(c0, c1)
+			api.AssertIsDifferent(c2, c0)
+			api.AssertIsEqual(api.Mul(s[0], s[1]), p[0])
+			api.AssertIsEqual(api.Add(s[0], s[1], s[2]), p[1])
+			return nil
+		}, Valid: [][2][]*big.Int{{bk.Big(6, 12), bk.Big(2, 3, 7)}, {bk.Big(20, 10), bk.Big(4, 5, 1)}}, Invalid: [][2][]*big.Int{{bk.Big(6, 13), bk.Big(2, 3, 7)}}},
+		{Name: "commit-shared-wire", NP: 1, NS: 3, NbCommit: 3, Def: func(api frontend.API, p, s []frontend.Variable) error {
+			// the third commitment commits to a wire the second one already owns
+			c0 := commit(api, s[0])
+			c1 := commit(api, s[1])
+			c2 := commit(api, s[1], s[2])
+			api.AssertIsDifferent(c0, c2)
+			api.AssertIsDifferent(c1, c2)
+			api.AssertIsEqual(api.Add(api.Mul(s[0], s[1]), s[2]), p[0])
+			return nil
+		}, Valid: [][2][]*big.Int{{bk.Big(13), bk.Big(2, 3, 7)}, {bk.Big(21), bk.Big(4, 5, 1)}}, Invalid: [][2][]*big.Int{{bk.Big(14), bk.Big(2, 3, 7)}}},
 		{Name: "fanout", NP: 1, NS: 2, Def: func(api frontend.API, p, s []frontend.Variable) error {
 			// s[0] occurs at many positions; the products are only used once more each
 			a := api.Mul(s[0], s[0])
